@@ -4,6 +4,13 @@
     push64 <nat>       -> hex bytes
     read64 <hex>       -> "ok <nat> <consumed>" | "err"
     marshal <desc>     -> hex bytes | "err"
+    marshalc <cdesc>   -> hex bytes | "err"              (value graphs with functions, funcdefs, environments; Code.lean)
+    unmarshalc <hex>   -> "ok <consumed> <cdesc>" | "err"
+  <cdesc> = <val> { "|" <cobj> } "#" [ <def> { "|" <def> } ] "#" [ <env> { "|" <env> } ]
+  <cobj> = <obj> | F <defidx> <envidx>*
+  <def>  = D <flags> <slotcount> <arity> <min> <max> <name|_> <source|_> C <k> <val>^k S <k> (<birth> <death> <slot> <val>)^k
+           B <hex of LE words|-> E <k> <int>^k D <k> <idx>^k M <k> (<line> <col>)^k X <k> <word>^k
+  <env>  = Ed <val>* | Es <offset> <length> <val>
     unmarshal <hex>    -> "ok <consumed> <desc>" | "err"
   <desc> = <val> { "|" <obj> }      heap objects in reference-number order (see JanetModel/Marsh/Graph.lean)
   <val>  = n | t | f | i<int> | r<id>
@@ -14,6 +21,7 @@ import Driver.Util
 import JanetModel.Marsh.IntCodec
 import JanetModel.Marsh.Size
 import JanetModel.Marsh.Graph
+import JanetModel.Marsh.Code
 import JanetModel.Asm.Operand
 open Driver JanetModel.Marsh
 
@@ -121,6 +129,170 @@ def showObj : Obj → String
 def showDesc (x : Val) (H : List Obj) : String :=
   showVal x ++ String.join (H.map fun o => " | " ++ showObj o)
 
+/-! ### code objects (Code.lean) -/
+
+def splitOnTok (sep : String) (toks : List String) : List (List String) :=
+  let rec go : List String → List String → List (List String) → List (List String)
+    | [], cur, acc => (cur.reverse :: acc).reverse
+    | t :: ts, cur, acc => if t = sep then go ts [] (cur.reverse :: acc) else go ts (t :: cur) acc
+  go toks [] []
+
+def parseNats : List String → Option (List Nat)
+  | [] => some []
+  | t :: ts => do
+    let v ← t.toNat?
+    let vs ← parseNats ts
+    some (v :: vs)
+
+def parseCObj (toks : List String) : Option CObj :=
+  match toks with
+  | "F" :: di :: envs => do
+    let d ← di.toNat?
+    let es ← parseNats envs
+    some (.func d es)
+  | _ => (parseObj toks).map .data
+
+def parseCObjs : List (List String) → Option (List CObj)
+  | [] => some []
+  | o :: os => do
+    let x ← parseCObj o
+    let xs ← parseCObjs os
+    some (x :: xs)
+
+/-- take `k` items, each parsed by `p` from the token stream -/
+def takeK {α : Type} (p : List String → Option (α × List String)) : Nat → List String → Option (List α × List String)
+  | 0, ts => some ([], ts)
+  | k + 1, ts => do
+    let (a, ts1) ← p ts
+    let (as, ts2) ← takeK p k ts1
+    some (a :: as, ts2)
+
+def pVal : List String → Option (Val × List String)
+  | t :: ts => (parseVal t).map fun v => (v, ts)
+  | [] => none
+def pInt : List String → Option (Int × List String)
+  | t :: ts => t.toInt?.map fun v => (v, ts)
+  | [] => none
+def pNat : List String → Option (Nat × List String)
+  | t :: ts => t.toNat?.map fun v => (v, ts)
+  | [] => none
+def pSym : List String → Option (SymEntry × List String)
+  | b :: d :: s :: v :: ts => do
+    let b' ← b.toInt?
+    let d' ← d.toInt?
+    let s' ← s.toInt?
+    let v' ← parseVal v
+    some (⟨b', d', s', v'⟩, ts)
+  | _ => none
+def pPair : List String → Option ((Int × Int) × List String)
+  | a :: b :: ts => do
+    let a' ← a.toInt?
+    let b' ← b.toInt?
+    some ((a', b'), ts)
+  | _ => none
+
+def wordsOfBytes : List Nat → List Nat
+  | b0 :: b1 :: b2 :: b3 :: rest => (b0 + b1 * 256 + b2 * 65536 + b3 * 16777216) :: wordsOfBytes rest
+  | _ => []
+
+def sect {α : Type} (tag : String) (p : List String → Option (α × List String)) (ts : List String) : Option (List α × List String) :=
+  match ts with
+  | t :: k :: rest => if t = tag then do
+      let n ← k.toNat?
+      takeK p n rest
+    else none
+  | _ => none
+
+def parseDef (toks : List String) : Option Def :=
+  match toks with
+  | "D" :: fl :: sc :: ar :: mn :: mx :: nm :: srcv :: rest => do
+    let flags ← fl.toInt?
+    let slotcount ← sc.toNat?
+    let arity ← ar.toNat?
+    let minA ← mn.toNat?
+    let maxA ← mx.toNat?
+    let name ← parseProto nm
+    let source ← parseProto srcv
+    let (constants, r1) ← sect "C" pVal rest
+    let (symbolmap, r2) ← sect "S" pSym r1
+    match r2 with
+    | "B" :: hx :: r3 => do
+      let bytes ← if hx = "-" then some [] else bytesOfHex hx
+      let (environments, r4) ← sect "E" pInt r3
+      let (defs, r5) ← sect "D" pNat r4
+      let (sourcemap, r6) ← sect "M" pPair r5
+      let (bitset, r7) ← sect "X" pNat r6
+      if r7 = [] then
+        some ⟨flags, slotcount, arity, minA, maxA, name, source, constants, symbolmap, wordsOfBytes bytes, environments, defs, sourcemap, bitset⟩
+      else none
+    | _ => none
+  | _ => none
+
+def parseEnv (toks : List String) : Option Env :=
+  match toks with
+  | "Ed" :: vs => (parseVals vs).map .detached
+  | ["Es", off, len, fib] => do
+    let o ← off.toNat?
+    let l ← len.toNat?
+    let f ← parseVal fib
+    some (.onstack o l f)
+  | _ => none
+
+def parseAll {α : Type} (p : List String → Option α) : List (List String) → Option (List α)
+  | [] => some []
+  | o :: os => do
+    let x ← p o
+    let xs ← parseAll p os
+    some (x :: xs)
+
+def nonEmptyGroups (toks : List String) : List (List String) := if toks = [] then [] else splitBar toks
+
+def parseCDesc (toks : List String) : Option (Val × Heap) :=
+  match splitOnTok "#" toks with
+  | [vo, ds, es] =>
+    match splitBar vo with
+    | [v] :: objs => do
+      let x ← parseVal v
+      let os ← parseCObjs objs
+      let dfs ← parseAll parseDef (nonEmptyGroups ds)
+      let evs ← parseAll parseEnv (nonEmptyGroups es)
+      some (x, ⟨os, dfs, evs⟩)
+    | _ => none
+  | _ => none
+
+def showNats (ns : List Nat) : String := String.join (ns.map fun n => s!" {n}")
+def showInts (ns : List Int) : String := String.join (ns.map fun n => s!" {n}")
+
+def showCObj : CObj → String
+  | .data o => showObj o
+  | .func d es => s!"F {d}" ++ showNats es
+
+def showOpt : Option Val → String
+  | none => "_"
+  | some v => showVal v
+
+def showDef (d : Def) : String :=
+  s!"D {d.flags} {d.slotcount} {d.arity} {d.minArity} {d.maxArity} {showOpt d.name} {showOpt d.source}"
+  ++ s!" C {d.constants.length}" ++ showVals d.constants
+  ++ s!" S {d.symbolmap.length}" ++ String.join (d.symbolmap.map fun s => s!" {s.birth} {s.death} {s.slot} {showVal s.sym}")
+  ++ " B " ++ (if d.bytecode = [] then "-" else hexOfBytes (u32s d.bytecode))
+  ++ s!" E {d.environments.length}" ++ showInts d.environments
+  ++ s!" D {d.defs.length}" ++ showNats d.defs
+  ++ s!" M {d.sourcemap.length}" ++ String.join (d.sourcemap.map fun p => s!" {p.1} {p.2}")
+  ++ s!" X {d.bitset.length}" ++ showNats d.bitset
+
+def showEnv : Env → String
+  | .detached vs => "Ed" ++ showVals vs
+  | .onstack o l f => s!"Es {o} {l} {showVal f}"
+
+def joinBar (xs : List String) : String :=
+  match xs with
+  | [] => ""
+  | x :: rest => x ++ String.join (rest.map fun y => " | " ++ y)
+
+def showCDesc (x : Val) (o : Out) : String :=
+  showVal x ++ String.join (o.objs.map fun ob => " | " ++ showCObj ob) ++ " # " ++ joinBar (o.defs.map showDef) ++ " # " ++ joinBar (o.envs.map showEnv)
+
 def step (_ : Unit) (toks : List String) : Unit × String :=
   match toks with
   | ["pushint", n] =>
@@ -162,6 +334,20 @@ def step (_ : Unit) (toks : List String) : Unit × String :=
       | none => ((), "err")
     | none => ((), "bad-op")
   | ["unmarshal"] => ((), "err")
+  | "marshalc" :: d =>
+    match parseCDesc d with
+    | some (x, T) =>
+      match marshalCode T x with
+      | some bs => ((), hexOfBytes bs)
+      | none => ((), "err")
+    | none => ((), "bad-op")
+  | ["unmarshalc", h] =>
+    match bytesOfHex h with
+    | some bs =>
+      match unmarshalCode (fun _ => true) bs with
+      | some (x, o, used) => ((), s!"ok {used} {showCDesc x o}")
+      | none => ((), "err")
+    | none => ((), "bad-op")
   | "asmword" :: opn :: args =>
     match opn.toNat? with
     | some k =>
